@@ -293,7 +293,7 @@ def exec_step(step, sess, chains, audit):
             v = real.params[p['name']]
             received[p['name']] = v
             nic = p.get('name_in_config') or p['name']
-            if 'default' in p and v == p['default'] and step.get('omit_defaults'):
+            if 'default' in p and step.get('omit_defaults') and rt.received_canon(v) == rt.received_canon(p['default']):     # typed: 1 is not True
                 continue
             if isinstance(v, ParameterObject) and step.get('objects_as_definitions') and hasattr(v, '_taskchain_instantiate_def'):
                 params[nic] = _copy.deepcopy(v._taskchain_instantiate_def)
